@@ -1292,6 +1292,10 @@ func isTypeName(x ast.Expr) bool {
 
 func stripParens(x ast.Expr) ast.Expr {
 	if px, strip := x.(*ast.ParenExpr); strip {
+		switch px.X.(type) {
+		case *ast.LambdaExpr, *ast.LambdaExpr2:
+			return x // XGo: `(x, y) => ...` needs its parentheses in a control clause
+		}
 		// parentheses must not be stripped if there are any
 		// unparenthesized composite literals starting with
 		// a type name
@@ -1301,8 +1305,13 @@ func stripParens(x ast.Expr) ast.Expr {
 				// parentheses protect enclosed composite literals
 				return false
 			case *ast.CompositeLit:
-				if isTypeName(x.Type) {
+				if x.Type == nil || isTypeName(x.Type) { // XGo: `{...}` without a type
 					strip = false // do not strip parentheses
+				}
+				return false
+			case *ast.ComprehensionExpr:
+				if x.Tok == token.LBRACE { // XGo: `{k: v for ...}`, `{for ...}`
+					strip = false
 				}
 				return false
 			}
